@@ -277,6 +277,20 @@ def run(ctx):
                         ops.append({"op": "addcol", "n": n, "d": rng.choice(["e", "c"]), "at": rng.choice([left] * 3 + [a for a in range(1, nc + 2) if a <= left or a > max(y[3] for y in used)])})
                         cnc += n
                     break
+            elif k < 0.62:
+                # a deletion wholly before the rectangles (first row / column included): they move up / left as a whole
+                if cnr == nr and cnc == nc:
+                    top, left = min(y[0] for y in used), min(y[1] for y in used)
+                    if rng.random() < 0.5 and top > 1:
+                        n = rng.randint(1, min(2, top - 1))
+                        ops.append({"op": "delrow", "n": n, "at": rng.choice([1, rng.randint(1, top - n)])})
+                        cnr -= n
+                        break
+                    if left > 1:
+                        n = rng.randint(1, min(2, left - 1))
+                        ops.append({"op": "delcol", "n": n, "at": rng.choice([1, rng.randint(1, left - n)])})
+                        cnc -= n
+                        break
             elif k < 0.7:
                 ops.append({"op": "save"})
         ops.append({"op": "save"})
